@@ -1,4 +1,5 @@
 """Sidecar contracts.  PROPS maps a property id to the contract modules that carry it."""
 PROPS = {
+    "C42": ["c42_timers"],
     "C43": ["c43_wrap"],
 }
